@@ -13,8 +13,8 @@ import (
 	admissionv1 "k8s.io/api/admission/v1"
 	corev1 "k8s.io/api/core/v1"
 	metav1 "k8s.io/apimachinery/pkg/apis/meta/v1"
-	apiserver "k8s.io/apiserver/pkg/server"
 	"k8s.io/apimachinery/pkg/types"
+	apiserver "k8s.io/apiserver/pkg/server"
 	restclient "k8s.io/client-go/rest"
 	admissionapi "k8s.io/pod-security-admission/admission/api"
 	"k8s.io/pod-security-admission/admission/api/load"
